@@ -1122,6 +1122,7 @@ func ruleTabDiatonic(c *Ctx) {
 type lexTables struct {
 	runeToken  map[rune]string // single-rune cases of ScanFunc -> token constant name
 	casePos    map[rune]token.Pos
+	exclFolded bool   // the two exclusion sets were decided by folding the predicates over lexRuneDomain
 	symbolExcl string // runes that end a symbol
 	metaExcl   string
 	pos        token.Pos
@@ -1303,6 +1304,12 @@ func (c *Ctx) lexerExclusions(lt *lexTables, found bool) (*lexTables, error) {
 		fn := c.fn("input/ast", spec.fn)
 		if fn == nil {
 			return nil, fmt.Errorf("input/ast.%s not found", spec.fn)
+		}
+		// by folding the predicate on every rune of the domain: the runes (other than end of input and white space) it refuses
+		if set, ok := c.refusedRunes(fn); ok {
+			*spec.dst = set
+			lt.exclFolded = true
+			continue
 		}
 		s, ok := c.containsRuneSet(fn, 0)
 		if !ok {
@@ -2177,4 +2184,41 @@ func (c *Ctx) generateDegreesByFolding(maxD int64) ([]yieldedDegree, bool) {
 		return nil, false
 	}
 	return out, true
+}
+
+// lexRuneDomain: the runes the lexer's predicates are folded on: end of input, everything below U+0300 and a sample of
+// what lies beyond (Unicode spaces, the musical signs, a byte order mark, a fullwidth digit, an astral character).
+func lexRuneDomain() []rune {
+	out := []rune{-1}
+	for r := rune(0); r < 0x300; r++ {
+		out = append(out, r)
+	}
+	for r := rune(0x2000); r <= 0x200f; r++ {
+		out = append(out, r)
+	}
+	return append(out, 0x2028, 0x2029, 0x202f, 0x205f, 0x3000, 0x266d, 0x266e, 0x266f, 0xfeff, 0xff10, 0x1f3b5, 0x10ffff)
+}
+
+// refusedRunes folds a rune predicate of the lexer (is this rune part of a symbol / of a metadata text) on lexRuneDomain
+// and returns the runes it refuses besides end of input and Unicode white space; ok=false when it does not fold, or
+// when it accepts end of input (the loop that uses it would not end).
+func (c *Ctx) refusedRunes(fn *ssa.Function) (string, bool) {
+	if len(fn.Params) == 0 {
+		return "", false
+	}
+	var refused []rune
+	for _, r := range lexRuneDomain() {
+		args := []fval{{k: constant.MakeInt64(int64(r)), t: types.Typ[types.Rune]}}
+		if len(fn.Params) == 2 {
+			args = append([]fval{top}, args...)
+		}
+		v, err := c.newFolder().foldCall(fn, args)
+		if err != nil || v.k == nil || v.k.Kind() != constant.Bool {
+			return "", false
+		}
+		if !constant.BoolVal(v.k) && r >= 0 && !unicode.IsSpace(r) {
+			refused = append(refused, r)
+		}
+	}
+	return string(refused), true
 }
